@@ -242,7 +242,7 @@ Section Main.
     - apply req_refl.
     - apply req_trans.
     - intros i S S' H. unfold step_id. destruct (nth_error stmts i); [apply (step_proper F g tok), H|].
-      exact I.
+      reflexivity.
     - intros i S H. unfold step_id. destruct (nth_error stmts i) as [st|] eqn:E; [|exact I].
       apply (step_clean F g LV U HW); [eapply nth_error_In; exact E|exact H].
     - intros i j. unfold indep_idx. destruct (nth_error stmts i), (nth_error stmts j); auto.
